@@ -33,6 +33,7 @@
 EXTENDS Naturals, Sequences, FiniteSets, TLC, Json
 
 CONSTANTS Alphabet,   \* set of mutator command texts used by the generator
+          PreAlphabet,\* ... for the parent's prelude (before the fork)
           Kinds,      \* subset of {"Paren","CmdSubst","Pipe","Async"}
           Ctxs,       \* subset of {"main","trap"}: where the construct is executed
           MaxPre, MaxChild, MaxPost, MaxTotal,
@@ -51,6 +52,8 @@ FdKeys == {"fd:" \o n : n \in FdNums}
 
 EKeys == {"val:a", "exp:a", "ro:a", "val:b", "exp:b", "ro:b", "val:PWD", "val:OLDPWD",
           "func:f", "alias:al", "opt:glob", "opt:clobber", "pos:#", "pos:1", "pos:2",
+          "opt:allexport", "opt:errexit", "opt:monitor", "opt:notify", "opt:pipefail", "opt:unset",
+          "opt:verbose", "opt:xtrace", "opt:hashondefinition", "opt:ignoreeof",
           "trap:INT", "trap:QUIT", "trap:TERM", "trap:USR1", "trap:USR2", "trap:CHLD", "trap:EXIT",
           "pend:USR1"}
 KKeys == {"cwd", "umask", "disp:INT", "disp:QUIT", "disp:TERM", "disp:USR1", "disp:USR2",
@@ -67,6 +70,7 @@ InitMap ==
        [] k = "val:PWD"     -> "S"
        [] k = "opt:glob"    -> "on"
        [] k = "opt:clobber" -> "on"
+       [] k = "opt:unset"   -> "on"
        [] k = "pos:#"       -> "2"
        [] k = "pos:1"       -> "p"
        [] k = "pos:2"       -> "q"
@@ -103,6 +107,34 @@ Sem(c) ==
     [] c = "set +o noglob"       -> [op |-> "opt",     n |-> "glob",    v |-> "on"]
     [] c = "set -C"              -> [op |-> "opt",     n |-> "clobber", v |-> "-"]
     [] c = "set +C"              -> [op |-> "opt",     n |-> "clobber", v |-> "on"]
+    [] c = "set -a"              -> [op |-> "opt",     n |-> "allexport", v |-> "on"]
+    [] c = "set +a"              -> [op |-> "opt",     n |-> "allexport", v |-> "-"]
+    [] c = "set -e"              -> [op |-> "opt",     n |-> "errexit",   v |-> "on"]
+    [] c = "set +e"              -> [op |-> "opt",     n |-> "errexit",   v |-> "-"]
+    [] c = "set -m"              -> [op |-> "opt",     n |-> "monitor",   v |-> "on"]
+    [] c = "set +m"              -> [op |-> "opt",     n |-> "monitor",   v |-> "-"]
+    [] c = "set -b"              -> [op |-> "opt",     n |-> "notify",    v |-> "on"]
+    [] c = "set +b"              -> [op |-> "opt",     n |-> "notify",    v |-> "-"]
+    [] c = "set -o pipefail"     -> [op |-> "opt",     n |-> "pipefail",  v |-> "on"]
+    [] c = "set +o pipefail"     -> [op |-> "opt",     n |-> "pipefail",  v |-> "-"]
+    [] c = "set -u"              -> [op |-> "opt",     n |-> "unset",     v |-> "-"]
+    [] c = "set +u"              -> [op |-> "opt",     n |-> "unset",     v |-> "on"]
+    [] c = "set -v"              -> [op |-> "opt",     n |-> "verbose",   v |-> "on"]
+    [] c = "set +v"              -> [op |-> "opt",     n |-> "verbose",   v |-> "-"]
+    [] c = "set -x"              -> [op |-> "opt",     n |-> "xtrace",    v |-> "on"]
+    [] c = "set +x"              -> [op |-> "opt",     n |-> "xtrace",    v |-> "-"]
+    [] c = "set -h"              -> [op |-> "opt",     n |-> "hashondefinition", v |-> "on"]
+    [] c = "set +h"              -> [op |-> "opt",     n |-> "hashondefinition", v |-> "-"]
+    [] c = "set -o ignoreeof"    -> [op |-> "opt",     n |-> "ignoreeof", v |-> "on"]
+    [] c = "set +o ignoreeof"    -> [op |-> "opt",     n |-> "ignoreeof", v |-> "-"]
+    \* the fifth kind of subshell: a simple command made of redirections only
+    \* (XCU 2.9.1: "... any redirections shall be performed in a subshell
+    \* environment"); what its subshell does is the side effect of expanding
+    \* the operand: an assignment.  `inner` is that step.
+    [] c = ">>/tmp/r$((a=1))"    -> [op |-> "redironly", n |-> "a", file |-> "/tmp/r1",
+                                     inner |-> [op |-> "assign", n |-> "a", v |-> "1"]]
+    [] c = ">>/tmp/r${b=3}"      -> [op |-> "redironly", n |-> "b", file |-> "/tmp/r3",
+                                     inner |-> [op |-> "assigndef", n |-> "b", v |-> "3"]]
     [] c = "shift"               -> [op |-> "shift"]
     [] c = "set --"              -> [op |-> "setpos",  ps |-> <<>>]
     [] c = "set -- r"            -> [op |-> "setpos",  ps |-> <<"r">>]
@@ -121,7 +153,7 @@ Sem(c) ==
     [] c = "trap - EXIT"         -> [op |-> "trap",    c |-> "EXIT", a |-> "-"]
     [] c = "trap 'probe c' CHLD" -> [op |-> "trap",    c |-> "CHLD", a |-> "cmd:probe c"]
     [] c = "trap - CHLD"         -> [op |-> "trap",    c |-> "CHLD", a |-> "-"]
-    [] c = "status 0 & wait"     -> [op |-> "gchild"]   \* a child of this process exits: SIGCHLD
+    [] c = "status 0 & until wait; do :; done"     -> [op |-> "gchild"]   \* a child of this process exits: SIGCHLD
     [] c = "exec 3>>/tmp/f3"     -> [op |-> "open",    fd |-> "3"]
     [] c = "exec 4</tmp/in"      -> [op |-> "open",    fd |-> "4"]
     [] c = "exec 3>&-"           -> [op |-> "close",   fd |-> "3"]
@@ -137,7 +169,11 @@ AllCmds ==
    "cd /tmp", "cd /home", "umask 027", "umask 077",
    "trap 'probe t' INT", "trap '' INT", "trap - INT",
    "trap 'probe u' TERM", "trap '' TERM", "trap - TERM",
-   "trap 'probe e' EXIT", "trap - EXIT", "trap 'probe c' CHLD", "trap - CHLD", "status 0 & wait",
+   "trap 'probe e' EXIT", "trap - EXIT", "trap 'probe c' CHLD", "trap - CHLD", "status 0 & until wait; do :; done",
+   "set -a", "set +a", "set -e", "set +e", "set -m", "set +m", "set -b", "set +b",
+   "set -o pipefail", "set +o pipefail", "set -u", "set +u", "set -v", "set +v", "set -x", "set +x",
+   "set -h", "set +h", "set -o ignoreeof", "set +o ignoreeof",
+   ">>/tmp/r$((a=1))", ">>/tmp/r${b=3}",
    "exec 3>>/tmp/f3", "exec 4</tmp/in", "exec 3>&-", "exec 4>&3", "exec 4>&-"}
 
 (* one representative per mutator class of the property's list *)
@@ -145,8 +181,14 @@ CoreCmds ==
   {"a=1", "unset a", "export a", "readonly b", "f() { probe f1; }", "unset -f f",
    "alias al=one", "unalias -a", "set -o noglob", "shift", "set -- r",
    "cd /tmp", "umask 027", "trap 'probe t' INT", "trap '' TERM", "trap 'probe e' EXIT",
-   "trap 'probe c' CHLD", "status 0 & wait",
+   "trap 'probe c' CHLD", "status 0 & until wait; do :; done", ">>/tmp/r$((a=1))", ">>/tmp/r${b=3}",
    "exec 3>>/tmp/f3", "exec 3>&-", "exec 4>&3"}
+
+(* every option `set -o` lists that a script can switch on without a terminal *)
+OptOnCmds ==
+  {"set -a", "set -e", "set -m", "set -b", "set -o pipefail", "set -u", "set -v", "set -x", "set -h",
+   "set -o ignoreeof", "set -C", "set -o noglob"}
+CorePreCmds == CoreCmds \cup OptOnCmds
 
 AllKinds == {"Paren", "CmdSubst", "Pipe", "Async"}
 MainCtx  == {"main"}
@@ -163,12 +205,15 @@ Roles(kind) ==
 (* Is the mutator well defined in state S of a process of the given role?  *)
 (* Excluded (the generator skips them): errors of special built-ins and    *)
 (* assignments to read-only variables -- a non-interactive shell exits --, *)
+(* `readonly NAME` while allexport is on (outside the modelled fragment),  *)
 (* and `trap` on SIGINT/SIGQUIT inside an asynchronous list, where POSIX   *)
 (* ("signals that were ignored on entry ... cannot be trapped or reset")   *)
 (* leaves the outcome open.                                                *)
 En(c, S, role) ==
   LET s == Sem(c) IN
-  CASE s.op \in {"assign", "exportv", "unset"} -> S["ro:" \o s.n] # "1"
+  CASE s.op \in {"assign", "exportv", "unset", "redironly"} -> S["ro:" \o s.n] # "1"
+    \* whether `readonly NAME` (no assignment) exports NAME under allexport is not C08's business
+    [] s.op = "readonly" -> S["opt:allexport"] # "on"
     [] s.op = "unalias" -> S["alias:" \o s.n] # "-"
     [] s.op = "shift"   -> S["pos:#"] # "0"
     [] s.op = "dup"     -> S["fd:" \o s.src] # "-"     \* descriptor 3 is only ever opened for output
@@ -185,7 +230,9 @@ DispOf(a) == CASE a = "-" -> "-" [] a = "ignore" -> "ignore" [] OTHER -> "catch"
 (* description the command creates, if it creates one.                      *)
 Ap(c, S, fresh) ==
   LET s == Sem(c) IN
-  CASE s.op = "assign"   -> Upd(S, ("val:" \o s.n) :> ("S" \o s.v))
+  CASE s.op = "assign"   -> Upd(S, ("val:" \o s.n) :> ("S" \o s.v) @@
+                                   ("exp:" \o s.n) :> (IF S["opt:allexport"] = "on" THEN "1" ELSE S["exp:" \o s.n]))
+    [] s.op = "redironly" -> S      \* done in a subshell of its own: nothing reaches this environment
     [] s.op = "unset"    -> Upd(S, ("val:" \o s.n) :> "-" @@ ("exp:" \o s.n) :> "-" @@ ("ro:" \o s.n) :> "-")
     [] s.op = "export"   -> Upd(S, ("exp:" \o s.n) :> "1" @@
                                    ("val:" \o s.n) :> (IF S["val:" \o s.n] = "-" THEN "U" ELSE S["val:" \o s.n]))
@@ -211,6 +258,11 @@ Ap(c, S, fresh) ==
     [] s.op = "close"    -> Upd(S, ("fd:" \o s.fd) :> "-" @@ ("fdx:" \o s.fd) :> "-")
     [] s.op = "dup"      -> Upd(S, ("fd:" \o s.fd) :> S["fd:" \o s.src] @@ ("fdx:" \o s.fd) :> "-")
 
+(* the keys a redirection-only command would change if its expansions were *)
+(* (wrongly) performed in the environment that executes it                  *)
+NestedFootprint(c) == IF Sem(c).op = "redironly" THEN {"val:" \o Sem(c).n, "exp:" \o Sem(c).n} ELSE {}
+NestedFiles(seq) == {Sem(seq[i]).file : i \in {x \in 1..Len(seq) : Sem(seq[x]).op = "redironly"}}
+
 (* keys outside MK that a mutator may legitimately touch as well *)
 ExtraFootprint(c) == IF Sem(c).op = "cd" THEN {"exp:PWD", "exp:OLDPWD"} ELSE {}
 
@@ -227,11 +279,14 @@ ApplySeq(S, seq, who) == ApplyFrom(S, seq, who, 1)
 (*  - the descriptors the construct itself plumbs (pipe ends, /dev/null)    *)
 (*    refer to open file descriptions the parent does not hold; all other  *)
 (*    descriptors share the parent's open file descriptions.                *)
+(* 2.9.3.1 / 2.12: /dev/null as standard input and ignored SIGINT/SIGQUIT    *)
+(* apply to an asynchronous list only "if job control is disabled"          *)
+NoJobControl(S) == S["opt:monitor"] # "on"
 TrapImg(S, role, c) ==
-  IF role = "async" /\ c \in {"INT", "QUIT"} THEN "ignore"
+  IF role = "async" /\ NoJobControl(S) /\ c \in {"INT", "QUIT"} THEN "ignore"
   ELSE IF S["trap:" \o c] \in {"-", "ignore"} THEN S["trap:" \o c] ELSE "-"
 DispImg(S, role, c) ==
-  IF role = "async" /\ c \in {"INT", "QUIT"} THEN "ignore"
+  IF role = "async" /\ NoJobControl(S) /\ c \in {"INT", "QUIT"} THEN "ignore"
   ELSE IF S["disp:" \o c] = "catch" THEN "-" ELSE S["disp:" \o c]
 
 Plumb(role) ==
@@ -244,6 +299,7 @@ Plumb(role) ==
 (* fork(): "the set of signals pending for the child process shall be      *)
 (* initialized to the empty set" -- a signal the parent has caught but not  *)
 (* yet acted upon is the parent's business.                                 *)
+EffPlumb(S, role) == IF role = "async" /\ ~NoJobControl(S) THEN <<>> ELSE Plumb(role)
 ForkImage(S, role) ==
   Upd(S, "trap:INT"  :> TrapImg(S, role, "INT")  @@ "trap:QUIT" :> TrapImg(S, role, "QUIT") @@
          "trap:TERM" :> TrapImg(S, role, "TERM") @@ "trap:EXIT" :> TrapImg(S, role, "EXIT") @@
@@ -252,7 +308,8 @@ ForkImage(S, role) ==
          "disp:INT"  :> DispImg(S, role, "INT")  @@ "disp:QUIT" :> DispImg(S, role, "QUIT") @@
          "disp:TERM" :> DispImg(S, role, "TERM") @@
          "disp:USR1" :> DispImg(S, role, "USR1") @@ "disp:USR2" :> DispImg(S, role, "USR2") @@
-         "pend:USR1" :> "-" @@ Plumb(role))
+         "pend:USR1" :> "-" @@
+         EffPlumb(S, role))
 
 (* Where the construct is executed.  "trap": from inside the action of a    *)
 (* SIGUSR2 trap, after SIGUSR1 -- which has a command trap, too -- has been *)
@@ -296,7 +353,7 @@ Init == /\ phase = "pre" /\ kind = "-" /\ ctx = "-" /\ pre = <<>> /\ chs = <<>> 
 
 PreStep ==
   /\ phase = "pre" /\ Len(pre) < MaxPre /\ Total < MaxTotal
-  /\ \E c \in Alphabet :
+  /\ \E c \in PreAlphabet :
        /\ En(c, P, "parent")
        /\ P' = Ap(c, P, Fresh("pre", Len(pre) + 1))
        /\ pre' = Append(pre, c)
@@ -375,8 +432,9 @@ TrapRule ==
      \A j \in 1..Len(C0) : \A c \in Conds :
         /\ C0[j]["trap:" \o c] \in {"-", "ignore"}
         /\ P0["trap:" \o c] = "ignore" => C0[j]["trap:" \o c] = "ignore"
-        /\ (Roles(kind)[j] = "async" /\ c \in {"INT", "QUIT"}) => C0[j]["trap:" \o c] = "ignore"
-        /\ (Roles(kind)[j] # "async" /\ P0["trap:" \o c] # "ignore") => C0[j]["trap:" \o c] = "-"
+        /\ LET forced == Roles(kind)[j] = "async" /\ NoJobControl(P0) /\ c \in {"INT", "QUIT"}
+           IN /\ forced => C0[j]["trap:" \o c] = "ignore"
+              /\ (~forced /\ P0["trap:" \o c] # "ignore") => C0[j]["trap:" \o c] = "-"
 
 (* BEHAVIOURALLY: the only trap actions a subshell ever runs are those it   *)
 (* installed itself -- never the parent's, whatever signal reaches it      *)
@@ -388,7 +446,7 @@ NoForeignTrapAction ==
 SharedDescriptions ==
   phase \in {"run", "done"} =>
      \A j \in 1..Len(C0) : \A k \in FdKeys \cup {"fdx:3", "fdx:4", "cwd", "umask"} :
-        IF k \in DOMAIN Plumb(Roles(kind)[j])
+        IF k \in DOMAIN EffPlumb(P0, Roles(kind)[j])
         THEN C0[j][k] \in PlumbNames /\ \A k2 \in FdKeys : P0[k2] # C0[j][k]
         ELSE C0[j][k] = P0[k]
 
